@@ -12,6 +12,7 @@ import (
 	"errors"
 	"fmt"
 	"io"
+	"math"
 	"math/rand"
 	"os"
 	"runtime"
@@ -44,6 +45,7 @@ var errVcBroken = errors.New("verif: broken pipe")
 
 type vcCase struct {
 	t      *testing.T
+	idBase int64 // wire id of the peer's call k is idBase+k (the model and the records use k): ids beyond 2^53 exercise exact id handling
 	rng    *rand.Rand
 	mu     sync.Mutex
 	parked []*vcParked
@@ -125,6 +127,9 @@ func (c *vcCase) subjectName(site string, subj any) string {
 		}
 		return "WT:0"
 	case "K1":
+		if v, ok := subj.(jsonrpc2.ID).Raw().(int64); ok {
+			return fmt.Sprintf("K1:%d", v-c.idBase) // logical id, as in the records
+		}
 		return fmt.Sprintf("K1:%v", subj.(jsonrpc2.ID).Raw())
 	case "C1", "R":
 		return fmt.Sprintf("%s:c%v", site, subj.(*jsonrpc2.AsyncCall).ID().Raw())
@@ -236,6 +241,20 @@ func (c *vcCase) observe() string {
 		}
 		return "0"
 	}
+	idsIn := func(l []jsonrpc2.ID) string {
+		var ns []int
+		for _, id := range l {
+			if v, ok := id.Raw().(int64); ok {
+				ns = append(ns, int(v-c.idBase))
+			}
+		}
+		sort.Ints(ns)
+		var ss []string
+		for _, n := range ns {
+			ss = append(ss, strconv.Itoa(n))
+		}
+		return strings.Join(ss, ",")
+	}
 	ids := func(l []jsonrpc2.ID) string {
 		var ns []int
 		for _, id := range l {
@@ -290,7 +309,7 @@ func (c *vcCase) observe() string {
 	fs = append(fs, fmt.Sprintf("close:%d", c.closeFin), fmt.Sprintf("wait:%d", c.waitFin))
 	return fmt.Sprintf("S=%s%s%s%s%s%s oc=%s on=%d in=%d by=%s q=%s hr=%s tc=%d od=%d P=%s X=%s F=%s",
 		b(s.Closing), b(s.Reading), b(s.ReadErr), b(s.WriteErr), b(s.CloserUsed), b(s.Done),
-		ids(s.OutgoingCalls), s.OutgoingNotifications, s.Incoming, ids(s.IncomingByID), strings.Join(q, ","), b(s.HandlerRunning),
+		ids(s.OutgoingCalls), s.OutgoingNotifications, s.Incoming, idsIn(s.IncomingByID), strings.Join(q, ","), b(s.HandlerRunning),
 		c.closes, c.onDone, strings.Join(pk, ","), strings.Join(xs, ","), strings.Join(fs, ","))
 }
 
@@ -447,18 +466,18 @@ func (c *vcCase) readAction(snap jsonrpc2.VerifState) string {
 	case r < 40: // peer call
 		id := c.nextPeer
 		if len(snap.IncomingByID) > 0 && c.rng.Intn(5) == 0 {
-			id = int(snap.IncomingByID[c.rng.Intn(len(snap.IncomingByID))].Raw().(int64)) // duplicate of an in-flight id
+			id = int(snap.IncomingByID[c.rng.Intn(len(snap.IncomingByID))].Raw().(int64) - c.idBase) // duplicate of an in-flight id
 		} else if c.nextPeer > 1 && c.rng.Intn(6) == 0 {
 			// reuse of an already answered id (allowed once its response has left the write path)
 			cand := 1 + c.rng.Intn(c.nextPeer-1)
-			if _, busy := c.respFor[strconv.Itoa(cand)]; !busy {
+			if _, busy := c.respFor[fmt.Sprint(c.idBase+int64(cand))]; !busy {
 				id = cand
 			}
 		}
 		if id == c.nextPeer {
 			c.nextPeer++
 		}
-		m := &jsonrpc.Request{ID: jsonrpc2.Int64ID(int64(id)), Method: "m"}
+		m := &jsonrpc.Request{ID: jsonrpc2.Int64ID(c.idBase + int64(id)), Method: "m"}
 		mk(m)
 		c.release(p, 0)
 		c.feed(vcRead{m, nil})
@@ -471,7 +490,7 @@ func (c *vcCase) readAction(snap jsonrpc2.VerifState) string {
 		return "read notif"
 	case r < 70 && c.nextPeer > 1:
 		id := 1 + c.rng.Intn(c.nextPeer)
-		params, _ := json.Marshal(&CancelledParams{RequestID: int64(id)})
+		params, _ := json.Marshal(&CancelledParams{RequestID: c.idBase + int64(id)})
 		m := &jsonrpc.Request{Method: notificationCancelled, Params: params}
 		mk(m)
 		c.release(p, 0)
@@ -594,6 +613,24 @@ func vcRunCase(t *testing.T, out *verifOut, cs string, rng *rand.Rand, script []
 	}
 	defer func() { jsonrpc2.VerifHook = nil }()
 	out.line(cs, "reset", "ok")
+	if script == nil {
+		switch rng.Intn(10) {
+		case 8:
+			c.idBase = 1 << 53 // idBase+1 is the first integer a float64 cannot represent
+		case 9:
+			c.idBase = math.MaxInt64 - 4096
+		}
+		if c.idBase != 0 {
+			out.line(cs, fmt.Sprintf("idbase %d", c.idBase), "ok", "idbase")
+		}
+	} else {
+		for _, op := range script {
+			if f := strings.Fields(op); len(f) == 2 && f[0] == "idbase" {
+				c.idBase, _ = strconv.ParseInt(f[1], 10, 64)
+				out.line(cs, op, "ok", "idbase")
+			}
+		}
+	}
 	pre := &vcPreempter{c: c, inner: &canceller{}}
 	ready := make(chan struct{})
 	go func() {
@@ -740,7 +777,7 @@ func vcRunCase(t *testing.T, out *verifOut, cs string, rng *rand.Rand, script []
 func vcRunScript(c *vcCase, out *verifOut, cs string, script []string) {
 	for _, op := range script {
 		toks := strings.Fields(op)
-		if len(toks) == 0 || toks[0] == "reset" || toks[0] == "START" || toks[0] == "end" || toks[0] == "sess" { // "sess": a case of stream sess (zz_verif_sesslevel_test.go)
+		if len(toks) == 0 || toks[0] == "reset" || toks[0] == "idbase" || toks[0] == "START" || toks[0] == "end" || toks[0] == "sess" { // "sess": a case of stream sess (zz_verif_sesslevel_test.go)
 			continue
 		}
 		synctest.Wait()
@@ -776,7 +813,7 @@ func vcRunScript(c *vcCase, out *verifOut, cs string, script []string) {
 				if id >= c.nextPeer {
 					c.nextPeer = id + 1
 				}
-				m := &jsonrpc.Request{ID: jsonrpc2.Int64ID(int64(id)), Method: "m"}
+				m := &jsonrpc.Request{ID: jsonrpc2.Int64ID(c.idBase + int64(id)), Method: "m"}
 				mk(m)
 				c.feed(vcRead{m, nil})
 			case "notif":
@@ -785,7 +822,7 @@ func vcRunScript(c *vcCase, out *verifOut, cs string, script []string) {
 				c.feed(vcRead{m, nil})
 			case "cancel":
 				id, _ := strconv.Atoi(toks[2])
-				params, _ := json.Marshal(&CancelledParams{RequestID: int64(id)})
+				params, _ := json.Marshal(&CancelledParams{RequestID: c.idBase + int64(id)})
 				m := &jsonrpc.Request{Method: notificationCancelled, Params: params}
 				mk(m)
 				c.feed(vcRead{m, nil})
